@@ -141,11 +141,13 @@ inline std::vector<MValue> filterLeaves() {
           MValue::f64(1.0), MValue::str("x")};
 }
 
-inline void pairCheck(Ctx& C, bool msgpack, const std::string& input, const RunResult& U, const MValue& filter, const std::string& fkey) {
+inline void pairCheck(Ctx& C, bool msgpack, const std::string& input, const RunResult& U, const MValue& filter, const std::string& fkey, int limit = 10) {
   std::string fmt = msgpack ? "msgpack" : "json";
   for (FilterMode mode : {AS_DOC, AS_VARIANT}) {
-    RunResult F = runOnce(msgpack, input, &filter, mode);
-    std::string key = "filter:fmt=" + fmt + "|in=" + (msgpack ? hex(input) : vis(input)) + "|filter=" + fkey + "|mode=" + (mode == AS_DOC ? "doc" : "variant");
+    if (limit != 10 && mode == AS_DOC) continue;  // the exact-depth runs use one filter mode
+    RunResult F = runOnce(msgpack, input, &filter, mode, limit);
+    std::string key = "filter:fmt=" + fmt + "|in=" + (msgpack ? hex(input) : vis(input)) + "|filter=" + fkey + "|mode=" + (mode == AS_DOC ? "doc" : "variant") +
+                      (limit != 10 ? "|limit=" + std::to_string(limit) : "");
     if (!F.problems.empty()) C.failKey(key, "safety", F.problems);
     if (U.code == DeserializationError::Ok) {
       if (F.code != DeserializationError::Ok) {
@@ -200,6 +202,15 @@ inline void run(Ctx& C) {
         pairs++;
         pairCheck(C, fmt != 0, input, U, f, mtext(f));
       }
+      // the same pairs with the nesting limit set to exactly the depth of the input: still Ok, still the projection
+      int depth = int(in.nesting());
+      RunResult U2 = runOnce(fmt != 0, input, nullptr, NONE, depth);
+      if (U2.code != DeserializationError::Ok) C.fail("generator", "unfiltered run at limit == depth is not Ok");
+      else
+        for (auto& f : filters) {
+          pairs++;
+          pairCheck(C, fmt != 0, input, U2, f, mtext(f), depth);
+        }
     }
     C.end();
   });
